@@ -17,10 +17,10 @@ func init() {
 		DesignRef: "DESIGN.md §5 C39",
 		Level: "Decides that the whole module type-checks against each of the three label-set implementations, that the three implementations export exactly the same API (same functions, same method sets with identical signatures on Labels, Builder, ScratchBuilder), that tsdb exports RebuildSymbolTable in every variant, " +
 			"and that in each variant the constructors that accept unordered input sort by name and the builders drop empty values.",
-		Note:     "Trusted: go/packages, go/types; three loads per run (about 15 s).",
-		Covers:   "model/labels (labels_stringlabels.go, labels_slicelabels.go, labels_dedupelabels.go, sharding*.go, labels_common.go), tsdb/head_dedupelabels.go vs head_other.go.",
-		NotCover: "that the three implementations compute equal results (lookups, order, bytes, hashes): value-level.",
-		Run:      runC39,
+		Note:           "Trusted: go/packages, go/types; three loads per run (about 15 s).",
+		Covers:         "model/labels (labels_stringlabels.go, labels_slicelabels.go, labels_dedupelabels.go, sharding*.go, labels_common.go), tsdb/head_dedupelabels.go vs head_other.go.",
+		NotCover:       "that the three implementations compute equal results (lookups, order, bytes, hashes): value-level.",
+		Run:            runC39,
 		MinObligations: 12,
 	})
 }
